@@ -487,9 +487,9 @@ func r05NonEmpty(c *core.Ctx, p *load.Program) {
 				}
 				n := ssax.StructOfFieldAddr(fa)
 				if n == nil || n.Obj().Pkg() == nil || (n.Obj().Name() != "PathError" && n.Obj().Name() != "LinkError") {
-				continue
-			}
-			if pp := n.Obj().Pkg().Path(); pp != mod && pp != "io/fs" && pp != "os" {
+					continue
+				}
+				if pp := n.Obj().Pkg().Path(); pp != mod && pp != "io/fs" && pp != "os" {
 					continue
 				}
 				field := ssax.FieldName(fa)
